@@ -149,8 +149,9 @@ func c16One(env *Env, c *C16Case) {
 	var verr error
 	select {
 	case verr = <-done:
-	case <-time.After(25 * time.Second):
-		env.R.Violate("validate-does-not-return:"+c.Consumer, fmt.Sprintf("no return within 25s (%d files, %d wounded, cancel_at=%d)", c.Files, c.Wounded, c.CancelAt), c)
+	case <-time.After(wvlib.Watchdog(25 * time.Second)):
+		wvlib.NoteHang()
+		env.R.Violate("validate-does-not-return:"+c.Consumer, fmt.Sprintf("no return within the watchdog time (%d files, %d wounded, cancel_at=%d)", c.Files, c.Wounded, c.CancelAt), c)
 		return
 	}
 	if verr != nil && strings.HasPrefix(verr.Error(), "PANIC") {
@@ -205,7 +206,7 @@ func validateWithConsumer(ctx context.Context, vctx *pwr.ValidatorContext, dir s
 
 func runC16(env *Env) {
 	R := env.R
-	R.Rule = "builds with 0..3000 damaged files (more wounds than the 1024-slot channel, damage only in the last file) x consumers {fail-fast, wounds file, unwritable wounds file (consumer fails on the first wound), printer, healer with a missing archive} x cancellation {never, before start, when progress reaches file k, while the last (multi-block) file is being hashed with the damage in its final block}; 25 s watchdog; distinct by (seed, consumer, cancellation); non-trivial = damaged or cancelled"
+	R.Rule = "builds with 0..3000 damaged files (more wounds than the 1024-slot channel, damage only in the last file) x consumers {fail-fast, wounds file, unwritable wounds file (consumer fails on the first wound), printer, healer with a missing archive} x cancellation {never, before start, when progress reaches file k, while the last (multi-block) file is being hashed with the damage in its final block}; watchdog (50 s, shortened after three hangs); distinct by (seed, consumer, cancellation); non-trivial = damaged or cancelled"
 	if env.Replay != "" {
 		var c C16Case
 		replayCase(env, &c)
